@@ -1,0 +1,31 @@
+//go:build verif
+
+package ledger
+
+// VerifOverlay is a read-only dump of one in-memory overlay.
+type VerifOverlay struct {
+	Got     map[LedgerKey][]byte
+	Updated map[LedgerKey][]byte
+	Removed []LedgerKey
+}
+
+func verifDump[T ILedgerItem](m *memItems[T]) VerifOverlay {
+	o := VerifOverlay{Got: map[LedgerKey][]byte{}, Updated: map[LedgerKey][]byte{}}
+	for k, v := range m.gotItems {
+		bz, _ := v.Encode()
+		o.Got[k] = bz
+	}
+	for k, v := range m.updatedItems {
+		bz, _ := v.Encode()
+		o.Updated[k] = bz
+	}
+	o.Removed = append(o.Removed, m.removedKeys...)
+	return o
+}
+
+// VerifDump returns (consensus overlay, mempool overlay). Read-only.
+func (ledger *FinalityLedger[T]) VerifDump() (VerifOverlay, VerifOverlay) {
+	ledger.mtx.RLock()
+	defer ledger.mtx.RUnlock()
+	return verifDump(ledger.finalityItems), verifDump(ledger.SimpleLedger.cachedItems)
+}
